@@ -151,6 +151,8 @@ def _build(node, env):
     sub = {k: _sub(v, env) for k, v in node.get("sub", {}).items()}
     if kind == "Object":
         classdict = ObjectClassDict()
+        if node.get("doc") is not None:
+            classdict["__doc__"] = node["doc"]  # class Foo(Object): """..."""  - the other way to give a description
         for name, prop in _props(node, env).items():
             classdict[name] = prop
         # one mix-in class per model class (a shared one could not be linearised along a chain)
@@ -205,6 +207,8 @@ def flat_class(node, idx):
     else:
         kw, sub, props = {}, {}, []
     kw.update(node.get("kw", {}))
+    if node.get("doc") is not None and "description" not in node.get("kw", {}):
+        kw["description"] = node["doc"]  # a class's own docstring is its description (the keyword wins)
     sub.update(node.get("sub", {}))
     for p in node.get("props", []):
         for i, q in enumerate(props):
@@ -512,12 +516,20 @@ def _node(draw, cfg, depth, gen, kinds=None):
                 else:
                     overlap_force = force
             elif k == "dependencies":
-                keys = draw(st.lists(st.sampled_from(["a", "b", "class"]), min_size=1, max_size=2, unique=True))
-                subs[k] = {
-                    kk: (draw(st.lists(st.sampled_from(["a", "b", "d"]), max_size=2, unique=True))
-                         if draw(st.booleans()) else draw(sub_node()))
-                    for kk in keys
-                }
+                keys = draw(st.lists(st.sampled_from(["a", "b", "class"]), min_size=1, max_size=3, unique=True))
+
+                def dep_value():
+                    # (also the degenerate ones: nothing required alongside - [] -, and the schema nothing satisfies)
+                    r = draw(st.integers(0, 7))
+                    if r <= 2:
+                        return draw(st.lists(st.sampled_from(["a", "b", "d"]), max_size=2, unique=True))
+                    if r == 3:
+                        return []
+                    if r == 4 and cfg.nothing:
+                        return {"id": gen.new_id(), "kind": "Nothing", "kw": {}}
+                    return draw(sub_node())
+
+                subs[k] = {kk: dep_value() for kk in keys}
         if isinstance(subs.get("items"), list) and "additionalItems" not in subs and draw(st.integers(0, 2)) > 0:
             # tuple items are only interesting together with additionalItems
             subs["additionalItems"] = (draw(_node(cfg, 0, gen, kinds=["String", "Integer", "Number", "Boolean", "Null"]))
@@ -747,6 +759,11 @@ def mutate(draw, recipe):
         ops += ["nest", "nest"]
     if kind == "Object":
         ops.append("rename-class")
+    maps = [k for k in ("dependencies", "patternProperties") if isinstance(node.get("sub", {}).get(k), dict)
+            and len(node["sub"][k]) > 1]
+    if maps or len(node.get("props") or []) > 1:
+        # the same keyword -> value map written in another order (maps compare equal whatever their order)
+        ops += ["reorder-map", "reorder-map"]
     if not ops:
         ops = ["add-kw"] if ALLOWED_KW.get(kind) else ["noop"]
     op = draw(st.sampled_from(ops))
@@ -795,6 +812,11 @@ def mutate(draw, recipe):
             node.pop("props", None)
     elif op == "reorder":
         node["elements"] = list(reversed(node["elements"]))
+    elif op == "reorder-map":
+        for k in maps:
+            node["sub"][k] = dict(reversed(list(node["sub"][k].items())))
+        if len(node.get("props") or []) > 1:
+            node["props"] = list(reversed(node["props"]))
     elif op == "nest":
         # the first two members wrapped in a composition of the SAME kind: oneOf(oneOf(a, b), c) is not oneOf(a, b, c)
         inner = {"id": max(index(new)) + 1000, "kind": kind, "kw": {}, "elements": node["elements"][:2]}
